@@ -4,9 +4,24 @@ Graph.vos Graph.vok Graph.required_vos: Graph.v
 GraphFacts.vo GraphFacts.glob GraphFacts.v.beautified GraphFacts.required_vo: GraphFacts.v Graph.vo
 GraphFacts.vio: GraphFacts.v Graph.vio
 GraphFacts.vos GraphFacts.vok GraphFacts.required_vos: GraphFacts.v Graph.vos
+Closure.vo Closure.glob Closure.v.beautified Closure.required_vo: Closure.v Graph.vo GraphFacts.vo
+Closure.vio: Closure.v Graph.vio GraphFacts.vio
+Closure.vos Closure.vok Closure.required_vos: Closure.v Graph.vos GraphFacts.vos
 Sched.vo Sched.glob Sched.v.beautified Sched.required_vo: Sched.v Graph.vo
 Sched.vio: Sched.v Graph.vio
 Sched.vos Sched.vok Sched.required_vos: Sched.v Graph.vos
 SchedInv.vo SchedInv.glob SchedInv.v.beautified SchedInv.required_vo: SchedInv.v Graph.vo GraphFacts.vo Sched.vo
 SchedInv.vio: SchedInv.v Graph.vio GraphFacts.vio Sched.vio
 SchedInv.vos SchedInv.vok SchedInv.required_vos: SchedInv.v Graph.vos GraphFacts.vos Sched.vos
+Priority.vo Priority.glob Priority.v.beautified Priority.required_vo: Priority.v Graph.vo
+Priority.vio: Priority.v Graph.vio
+Priority.vos Priority.vok Priority.required_vos: Priority.v Graph.vos
+PriorityFacts.vo PriorityFacts.glob PriorityFacts.v.beautified PriorityFacts.required_vo: PriorityFacts.v Graph.vo GraphFacts.vo Closure.vo Priority.vo
+PriorityFacts.vio: PriorityFacts.v Graph.vio GraphFacts.vio Closure.vio Priority.vio
+PriorityFacts.vos PriorityFacts.vok PriorityFacts.required_vos: PriorityFacts.v Graph.vos GraphFacts.vos Closure.vos Priority.vos
+Select.vo Select.glob Select.v.beautified Select.required_vo: Select.v Graph.vo
+Select.vio: Select.v Graph.vio
+Select.vos Select.vok Select.required_vos: Select.v Graph.vos
+SelectFacts.vo SelectFacts.glob SelectFacts.v.beautified SelectFacts.required_vo: SelectFacts.v Graph.vo GraphFacts.vo Select.vo
+SelectFacts.vio: SelectFacts.v Graph.vio GraphFacts.vio Select.vio
+SelectFacts.vos SelectFacts.vok SelectFacts.required_vos: SelectFacts.v Graph.vos GraphFacts.vos Select.vos
